@@ -10,6 +10,12 @@ def spec():
         "Other": {"type": "object", "required": ["code"], "properties": {"code": st}},
         "Err": {"type": "object", "properties": {"msg": st}},
         "ItemList": {"type": "array", "items": ref("Item")},
+        # an object without declared properties (emitted as a wrapper class) and a named array of it
+        "Labels": {"type": "object", "additionalProperties": st},
+        "LabelSets": {"type": "array", "items": ref("Labels")},
+        # nullable success bodies: an all-optional object, a named array
+        "Profile": {"type": "object", "nullable": True, "properties": {"nick": st, "city": st}},
+        "MaybeItems": {"type": "array", "nullable": True, "items": ref("Item")},
         "Circle": {"type": "object", "required": ["r"], "properties": {"r": it}},
         "Square": {"type": "object", "required": ["side"], "properties": {"side": it}},
         "Shape": {"oneOf": [ref("Circle"), ref("Square")]},
@@ -25,6 +31,10 @@ def spec():
         "/item": op("getItem", {"200": js(ref("Item"))}),
         "/items": op("listItems", {"200": js({"type": "array", "items": ref("Item")})}),
         "/alias": op("getAlias", {"200": js(ref("ItemList"))}),
+        "/labelsets": op("getLabelSets", {"200": js(ref("LabelSets"))}),
+        "/labels": op("getLabels", {"200": js(ref("Labels"))}),
+        "/profile": op("getProfile", {"200": js(ref("Profile")), "204": {"description": "nothing stored"}}),
+        "/mitems": op("getMaybeItems", {"200": js(ref("MaybeItems"))}),
         "/count": op("getCount", {"200": js(it)}),
         "/name": op("getName", {"200": js(st)}),
         "/create": op("createItem", {"201": js(ref("Item"))}, "post"),
